@@ -8,6 +8,7 @@ Driver of C03 / C04 (exe `nv_c03`), line protocol:
   (valid.rules (tsdoc …) (doc …))  → (rules "5.3.1" …)                  violated implemented rules (reference validator)
   (valid.spec (tsdoc …) (doc …))   → (spec true|false "5.3.2" …)        SpecValid, with every violated rule id
   (valid.schema (tsdoc …))         → (schema true|false)
+  (kinds.table)                    → (kinds ("5.3.1" FieldNotFound …) …)              Spec/Valid.kindsOf
   (all (tsdoc …) (doc …))          → (all (errs …) (rules …) (spec …) (schema …))   the four answers at once
 The tsdoc is the RESOLVED type-system document (built-ins included) the real `ast_to_type_system` consumes.
 -/
@@ -41,6 +42,9 @@ def handle : Sexp → Sexp
     | none => Sexp.err "cannot decode tsdoc"
   | .list [.atom "all", ts, d] => withInput ts d fun S D =>
     .list [.atom "all", errsSexp (CheckOp.checkOp S D), rulesSexp S D, specSexp S D, schemaSexp S]
+  | .list [.atom "kinds.table"] =>
+    .list (.atom "kinds" :: (Valid.ruleTable ++ Valid.extraRuleTable).map fun r =>
+      .list (.str r.1 :: (Valid.kindsOf r.1).map fun k => .atom k.toString))
   | .list [.atom "flush"] => .list [.atom "flushed"]
   | _ => .list [.atom "bad-request"]
 
